@@ -99,6 +99,12 @@ func (c04Driver) Generate(t *tape.Tape, tier string) core.Case {
 	g := model.Generate(t.Sub("scenario"), p)
 	c.Scenario = g.S
 	c.Injected = g.Injected
+	// one module may be loaded in two revisions, with some importers (also
+	// augmenting ones) pinned to the older: an error may then land in a tree
+	// that is not the one filed under the bare name
+	if name := addOlderRevision(t.Sub("revisions"), g.S, 8); name != "" {
+		c.Injected = append(c.Injected, "two-revisions-of-"+name)
+	}
 	names := sortedNames(model.RenderAll(g.S))
 	st := t.Sub("schedule")
 	c.Order = permuted(st, names)
@@ -187,7 +193,10 @@ func (c04Driver) Run(cc core.Case) core.Outcome {
 	last := res.Ops[len(res.Ops)-1]
 	clean := len(last.Errs) == 0
 	mustReport := ""
-	if c.Scenario != nil {
+	if c.Scenario != nil && len(latestOnly(c.Scenario).Mods) == len(c.Scenario.Mods) {
+		// (with two revisions of a module loaded and importers pinned to the
+		// older one, a collision the reference model sees among the latest
+		// revisions may not arise: the invariant alone is checked then)
 		if why := model.MustReport(c.Scenario); len(why) > 0 {
 			mustReport = why[0]
 		}
